@@ -74,16 +74,53 @@ theorem C18.recip_halfcomplex_prefix (n : Nat) (hn : 1 ≤ n) (shift : Bool) :
     subst this
     cases shift <;> simp [recipGrid, Grid.point, hcLen]
 
-/-- The reciprocal grid contains the zero frequency exactly where the documentation says:
-shifted grids of even length (index `n/2`) and non-shifted grids of odd length (index
-`(n-1)/2`). -/
-theorem C18.recip_contains_zero (m : Nat) (hm : 1 ≤ m) :
-    (recipGrid (2*m) true false).point m = 0 ∧ (recipGrid (2*m+1) false false).point m = 0 := by
-  have hm0 : (m : Rat) ≠ 0 := by exact_mod_cast (by omega : m ≠ 0)
-  have h1 : (2 * (m : Rat) + 1) ≠ 0 := by positivity
+/-- Node `j < n` of the full reciprocal grid is `ξ₀ + 2j/n` (units `π/s`), for every `n ≥ 1`
+(a one-point axis included). -/
+theorem C18.recip_point_formula (n : Nat) (hn : 1 ≤ n) (shift : Bool) (j : Nat) (hj : j < n) :
+    (recipGrid n shift false).point j
+      = (if shift then -1 else -1 + 1 / (n : Rat)) + 2 * (j : Rat) / n := by
+  by_cases h2 : 2 ≤ n
+  · exact (C18.recip_grid_uniform n h2 shift).2.2 j
+  · have h1 : n = 1 := by omega
+    have hj0 : j = 0 := by omega
+    subst h1; subst hj0
+    cases shift <;> simp [recipGrid, Grid.point]
+
+/-- The reciprocal grid contains the zero frequency EXACTLY where the documentation says:
+shifted grids of even length and non-shifted grids of odd length — and in no other case. -/
+theorem C18.recip_contains_zero_iff (n : Nat) (hn : 1 ≤ n) (shift : Bool) :
+    (∃ j, j < n ∧ (recipGrid n shift false).point j = 0) ↔
+      ((shift = true ∧ n % 2 = 0) ∨ (shift = false ∧ n % 2 = 1)) := by
+  have hn0 : (n : Rat) ≠ 0 := by exact_mod_cast (by omega : n ≠ 0)
   constructor
-  · rw [(C18.recip_grid_uniform (2*m) (by omega) true).2.2]; push_cast; simp; field_simp; ring
-  · rw [(C18.recip_grid_uniform (2*m+1) (by omega) false).2.2]; push_cast; simp; field_simp; ring
+  · rintro ⟨j, hj, h⟩
+    rw [C18.recip_point_formula n hn shift j hj] at h
+    cases shift
+    · right
+      simp at h
+      have : (2 * j + 1 : Rat) = n := by field_simp at h; linarith
+      have : 2 * j + 1 = n := by exact_mod_cast this
+      exact ⟨rfl, by omega⟩
+    · left
+      simp at h
+      have : (2 * j : Rat) = n := by field_simp at h; linarith
+      have : 2 * j = n := by exact_mod_cast this
+      exact ⟨rfl, by omega⟩
+  · rintro (⟨hs, hp⟩ | ⟨hs, hp⟩)
+    · subst hs
+      refine ⟨n / 2, by omega, ?_⟩
+      rw [C18.recip_point_formula n hn true _ (by omega)]
+      have : (2 * (n / 2 : Nat) : Rat) = n := by
+        have : 2 * (n / 2) = n := by omega
+        exact_mod_cast this
+      simp; field_simp; linarith
+    · subst hs
+      refine ⟨n / 2, by omega, ?_⟩
+      rw [C18.recip_point_formula n hn false _ (by omega)]
+      have : (2 * (n / 2 : Nat) + 1 : Rat) = n := by
+        have : 2 * (n / 2) + 1 = n := by omega
+        exact_mod_cast this
+      simp; field_simp; linarith
 
 /-- `2(n/2+1) - 2 = n` for even and `2(n/2+1) - 1 = n` for odd `n`: the parity option of
 `realspace_grid` (and the `s=` argument of `irfftn`) restores the original length. -/
@@ -283,20 +320,26 @@ theorem C18.dft_range_old_complex_halfcomplex_fails (n : Nat) (hn : 3 ≤ n) :
     dftRangeLenOld n true ≠ dftOutLen n true true := by
   simp [dftRangeLenOld, dftOutLen, dftHalfcomplexFlag, recipGrid, hcLen]; omega
 
-/-- `pyfftw_call` never creates a destroying plan on the array that holds the data: the data
-survives planning for every input kind, plan state and planner. -/
-theorem C18.pyfftw_planning_preserves_data (fresh destroys : Bool) :
-    dataSurvivesPlanning fresh destroys = true := by
-  cases fresh <;> cases destroys <;> simp [dataSurvivesPlanning, planOnDataArray, mustCopy]
+/-- Boolean fact about the two guards of `pyfftw_call` (no arithmetic content): with
+`plan_arr_in` a scratch array whenever the planner destroys, and `plan_arr_out` that same
+scratch array for in-place calls, a destroying planner never runs on an array holding the
+data — out-of-place and in-place calls, fresh and given plans, every planner.  (That FFTW
+planners other than `estimate` overwrite both arrays, and nothing else, is the assumption
+encoded in `dataSurvivesPlanning`; it is compared with the real library on every pyfftw
+case, with `planning_effort ∈ {estimate, measure}`.) -/
+theorem C18.pyfftw_planning_guards_cover_both_arrays (fresh destroys inPlace : Bool) :
+    dataSurvivesPlanning fresh destroys inPlace = true := by
+  cases fresh <;> cases destroys <;> cases inPlace <;>
+    simp [dataSurvivesPlanning, planInIsData, planOutIsData, mustCopy]
 
-/-- Sensitivity: with the old guard (`… and not array_in_copied`) real input without
-halfcomplex, a fresh plan and a destroying planner (`FFTW_MEASURE`, the default of the DFT
-operators) lose the data; all other combinations were safe. -/
-theorem C18.pyfftw_planning_old_guard_destroys_real_input (realIn hc fresh destroys : Bool) :
-    dataSurvivesPlanningOld realIn hc fresh destroys = false ↔
-      (realIn = true ∧ hc = false ∧ fresh = true ∧ destroys = true) := by
-  cases realIn <;> cases hc <;> cases fresh <;> cases destroys <;>
-    simp [dataSurvivesPlanningOld, planOnDataArrayOld, mustCopy, arrayInCopied]
+/-- Sensitivity: the earlier guards lose the data exactly for a fresh plan with a destroying
+planner when the input is real without halfcomplex (planned on its complex copy) or the call
+is in place (planned on the output array, which is the data). -/
+theorem C18.pyfftw_planning_old_guards_destroy_data (realIn hc fresh destroys inPlace : Bool) :
+    dataSurvivesPlanningOld realIn hc fresh destroys inPlace = false ↔
+      (fresh = true ∧ destroys = true ∧ ((realIn = true ∧ hc = false) ∨ inPlace = true)) := by
+  cases realIn <;> cases hc <;> cases fresh <;> cases destroys <;> cases inPlace <;>
+    simp [dataSurvivesPlanningOld, mustCopy, arrayInCopied]
 
 /-! ## Phases of the continuous transform (`dft_preprocess_data`, `dft_postprocess_data`) -/
 
@@ -482,6 +525,76 @@ theorem C18.ft_forward_is_fourier_sum {K : Type} [Field K] (e : Rat → K) (he :
     intro k _
     rw [hr, ← key k]; ring
 
+/-- **Link between the executed n-d definition and the one-axis maps of the theorems.**
+On a 1-d array (shape `[n]`, axes `[0]`) the n-d definitions the driver executes for the
+non-half-complex transforms, `ftForwardSepNd` / `ftInverseSepNd` (fibre-wise composition of the
+one-axis maps), return at every index `k < n` exactly `ftForwardAxis` / `ftInverseAxis` of the
+input — the functions `ft_inverse` and `ft_forward_is_fourier_sum` are about.  (For more axes
+the definitions apply the same maps along every fibre, `alongAxis`; no composition theorem is
+proved for `d > 1`.) -/
+theorem C18.ft_sep_1d {K : Type} [Field K] [Inhabited K] (roots : Nat → Option (K × K))
+    (e : Rat → K) (amp : Nat → Nat → K) (c : Nat → Nat → Rat) (t : Nat → Rat)
+    (plus sh : Bool) (n : Nat) (w winv : K) (hroots : roots n = some (w, winv))
+    (x : Array K) (k : Nat) (hk : k < n) :
+    (ftForwardSepNd roots e amp c t plus [n] [0] [sh] x).map (fun r => r.2.getD k default)
+      = some (ftForwardAxis e (amp 0) (c 0) (t 0) sh plus w winv n
+          (fun j => x.getD j default) k) ∧
+    (ftInverseSepNd roots e amp c t plus [n] [0] [sh] x).map (fun r => r.2.getD k default)
+      = some (ftInverseAxis e (amp 0) (c 0) (t 0) sh plus w winv n
+          (fun j => x.getD j default) k) := by
+  constructor
+  · simp [ftForwardSepNd, hroots, applyAxes, axisSplit]
+    simpa using alongAxis_one n n _ x k hk
+  · simp [ftInverseSepNd, hroots, applyAxes, axisSplit]
+    simpa using alongAxis_one n n _ x k hk
+
+/-- **Half-complex continuous transform round trip** (the default of `FourierTransform` on real
+spaces).  With a conjugation `σ` (`σ w = w⁻¹`, `σ (e q) = e (-q)`), real data `f`, non-vanishing
+kernel factors on the stored nodes: the halved-axis inverse `ftInverseAxisHc` (kernel division,
+phase, `irfft(·, n)`, factors `(-1)^k`) applied to ANY array agreeing with the forward transform
+on the `n/2+1` stored nodes returns the input, for even and odd `n`.  Uses that on a shifted axis
+the pre-processed data stays real (`pre_factor_real_of_shift`). -/
+theorem C18.ft_halfcomplex_inverse {K : Type} [Field K] (e : Rat → K) (he : IsPhase e)
+    (σ : K →+* K) (hσe : ∀ q, σ (e q) = e (-q))
+    (w : K) (n : Nat) (hn : 0 < n) (hnK : (n : K) ≠ 0) (hw : IsPrimRoot w n) (hσ : σ w = w⁻¹)
+    (amp : Nat → K) (hamp : ∀ j, j ≤ n / 2 → amp j ≠ 0) (c : Nat → Rat) (t : Rat)
+    (f : Nat → K) (hf : ∀ j, σ (f j) = f j)
+    (g : Nat → K)
+    (hg : ∀ j, j ≤ n / 2 → g j = ftForwardAxis e amp c t true false w w⁻¹ n f j)
+    (k : Nat) (hk : k < n) :
+    ftInverseAxisHc e σ amp c t w⁻¹ n g k = f k := by
+  -- the pre-processed data is real
+  have hpre : ∀ k p, preExp n true p k = ((k % 2 : Nat) : Rat) := by intro k p; simp [preExp]
+  have hreal : ∀ r : Nat, e (-(r : Rat)) = e (r : Rat) :=
+    fun r => he.eq_of_eqMod2 ⟨-(r : Int), by push_cast; ring⟩
+  set f' : Nat → K := fun k => e (preExp n true false k) * f k with hf'
+  have hf'real : ∀ j, σ (f' j) = f' j := by
+    intro j; simp only [hf', map_mul, hσe, hf, hpre, hreal]
+  have hh : ∀ j, j ≤ n / 2 →
+      (e (postExp true t (c j)) / amp j) * g j = dftSum w n f' j := by
+    intro j hj
+    rw [hg j hj]
+    unfold ftForwardAxis
+    have h0 := (C18.ft_inverse_factors n true false t (c j) 0).1
+    have : e (postExp true t (c j)) * e (postExp false t (c j)) = 1 := by
+      rw [← he.add, add_comm]; simpa [he.zero] using congrArg e h0
+    have ha := hamp j hj
+    have hD : dftForwardNp false w w⁻¹ n (fun k => e (preExp n true false k) * f k) j
+        = dftSum w n f' j := by simp [dftForwardNp, hf']
+    rw [hD]
+    generalize dftSum w n f' j = D
+    field_simp
+    linear_combination D * this
+  unfold ftInverseAxisHc
+  rw [C18.halfcomplex_roundtrip σ w n hn hnK hw hσ f' hf'real _ hh k hk]
+  simp only [hf', hpre]
+  generalize k % 2 = r
+  have : e (r : Rat) * e (r : Rat) = 1 := by
+    rw [← he.add]
+    have := he.two_mul_int (r : Int)
+    rw [← this]; congr 1; push_cast; ring
+  linear_combination (f k) * this
+
 /-- Non-vacuity of `IsPhase`: `q ↦ exp(iπ q)` over `ℂ` is a phase function, and it is not
 trivial (`e 1 = -1`). -/
 example : IsPhase (fun q : Rat => Complex.exp (Real.pi * Complex.I * (q : ℂ))) ∧
@@ -499,13 +612,42 @@ example : IsPhase (fun q : Rat => Complex.exp (Real.pi * Complex.I * (q : ℂ)))
 
 open OdlModel.Wavelet OdlModel.Gen.WaveletPad
 
-/-- **Flatten/unflatten round trip.**  For ANY list of coefficient blocks (any number of
-levels, any shapes — each block raveled), cutting the flat coefficient vector at the slices
-that `precompute_raveled_slices` derives from the block sizes alone returns exactly the
-blocks that were concatenated. -/
+/-- List fact about the MODEL'S STAND-INS for PyWavelets' `ravel_coeffs` (`ravel` = concatenation)
+and `unravel_coeffs` (`unravel` = cut at the slices): cutting a concatenation at consecutive
+slices of the block sizes returns the blocks.  It says nothing about ODL by itself; ODL's part
+is `raveled_slices_layout` / `raveled_slices_roundtrip` below. -/
 theorem C18.ravel_unravel_id {K : Type} (blocks : List (List K)) :
     unravel (slicesFrom 0 (blocks.map List.length)) (ravel blocks) = blocks := by
   simpa [ravel] using unravel_aux blocks [] []
+
+/-- **ODL's `precompute_raveled_slices`** (`ravelSlices`, the function the driver executes and
+compares with `WaveletTransform._coeff_slices`): for every approximation shape and every list
+of detail dictionaries, the keys come out in the order approximation, then per level the
+SORTED keys, and the slices are the consecutive intervals of the block sizes `prod(shape)` in
+that order, starting at 0. -/
+theorem C18.raveled_slices_layout (aShape : List Nat) (details : List (List (String × List Nat))) :
+    (ravelSlices aShape details).map (·.1) = (blockOrder aShape details).map (·.1) ∧
+    (ravelSlices aShape details).map (·.2)
+      = slicesFrom 0 ((blockOrder aShape details).map fun b => prod b.2) := by
+  unfold ravelSlices
+  constructor
+  · rw [List.map_fst_zip]; simp [slicesFrom_length]
+  · rw [List.map_snd_zip]; simp [slicesFrom_length]
+
+/-- Hence: cutting the concatenation of ANY coefficient blocks whose sizes are the `prod` of
+the shapes in raveled order at ODL's precomputed slices returns exactly those blocks (what
+`WaveletTransformInverse._call` relies on when it hands `_coeff_slices` to
+`pywt.unravel_coeffs`; that PyWavelets concatenates in this order is compared on every case). -/
+theorem C18.raveled_slices_roundtrip {K : Type} (aShape : List Nat)
+    (details : List (List (String × List Nat))) (vals : List (List K))
+    (hsz : vals.map List.length = (blockOrder aShape details).map fun b => prod b.2) :
+    unravel ((ravelSlices aShape details).map (·.2)) (ravel vals) = vals := by
+  rw [(C18.raveled_slices_layout aShape details).2, ← hsz]
+  exact C18.ravel_unravel_id vals
+
+example : ravelSlices [2, 3] [] = [("a", 0, 6)] ∧
+    unravel ((ravelSlices [2, 3] []).map (·.2)) (ravel [[1, 2, 3, 4, 5, 6]]) = [[1, 2, 3, 4, 5, 6]] :=
+  ⟨by decide, C18.raveled_slices_roundtrip [2, 3] [] [[1, 2, 3, 4, 5, 6]] (by decide)⟩
 
 /-- **Crop rule.**  Whenever PyWavelets' reconstruction has an admissible length (`n`, or
 `n+1` for odd `n`), the crop of `WaveletTransformInverse._call` keeps exactly `n` entries and
@@ -528,53 +670,70 @@ theorem C18.pad_table_sound :
     (∀ p ∈ padTable, p.2 ∈ pywtModes) ∧
     (∀ m ∈ pywtModes, ∃ p ∈ padTable, p.2 = m) := by decide
 
-/-- **Adjoint scaling.**  Let `W` (the decomposition, `n` samples to `m` coefficients) be an
-ℓ² isometry with two-sided inverse `V` (assumption on PyWavelets: orthogonal wavelet,
-periodization, dyadic sizes).  With the cell-volume weighted pairing `cv·Σ` on the image
-space and the plain pairing on the coefficient space, the operators ODL returns —
-`(1/cv)·W⁻¹` for the forward transform and `cv·W` for the inverse — satisfy the adjoint
-identity for all `x`, `c`, every `cv ≠ 0` and all sizes. -/
-theorem C18.wavelet_adjoint_scale {K : Type} [Field K] (n m : Nat) (cv : K) (hcv : cv ≠ 0)
+/-- **Adjoint, CONDITIONAL on leaf hypotheses about PyWavelets.**  Hypotheses (not proved,
+measured by the harness for orthogonal wavelets with periodization on dyadic sizes): the
+decomposition `W` (`n` samples to `m` coefficients) preserves the plain dot product and has the
+two-sided inverse `V`.  Conclusion about ODL's part: with the image space's inner product
+`Σ w_i x_i y_i` (`w` = the pointwise weights `innerWeight` computed by
+`_inner_product_weights`: weighting constant × boundary cell fractions, all non-zero) and the
+plain pairing on the coefficient space, the operators ODL returns — `adjointForward`
+(`(1/w)·W⁻¹`) and `adjointInverse` (`W ∘ (w·)`) — satisfy the adjoint identity for all `x`,
+`c` and all sizes. -/
+theorem C18.wavelet_adjoint_of_leaf_hyps {K : Type} [Field K] (n m : Nat)
+    (w : Nat → K) (hw : ∀ i, i < n → w i ≠ 0)
     (W V : (Nat → K) → (Nat → K))
     (hiso : ∀ x x', sumTo m (fun i => W x i * W x' i) = sumTo n (fun i => x i * x' i))
     (hWV : ∀ c i, i < m → W (V c) i = c i)
     (hVW : ∀ x i, i < n → V (W x) i = x i)
     (x c : Nat → K) :
-    -- ⟨W x, c⟩_coeff = ⟨x, (1/cv) V c⟩_cv
     sumTo m (fun i => W x i * c i)
-      = cv * sumTo n (fun i => x i * (adjointScale true cv * V c i)) ∧
-    -- ⟨V c, x⟩_cv = ⟨c, cv W x⟩_coeff
-    cv * sumTo n (fun i => V c i * x i)
-      = sumTo m (fun i => c i * (adjointScale false cv * W x i)) := by
+      = sumTo n (fun i => w i * (x i * adjointForward w (V c) i)) ∧
+    sumTo n (fun i => w i * (V c i * x i))
+      = sumTo m (fun i => c i * adjointInverse W w x i) := by
   have e1 : sumTo m (fun i => W x i * c i) = sumTo m (fun i => W x i * W (V c) i) := by
     rw [sumTo_eq_sum, sumTo_eq_sum]
     exact Finset.sum_congr rfl fun i hi => by rw [hWV c i (Finset.mem_range.mp hi)]
-  have e2 : sumTo n (fun i => V c i * x i) = sumTo n (fun i => V c i * V (W x) i) := by
-    rw [sumTo_eq_sum, sumTo_eq_sum]
-    exact Finset.sum_congr rfl fun i hi => by rw [hVW x i (Finset.mem_range.mp hi)]
-  have e3 : sumTo n (fun i => V c i * V (W x) i) = sumTo m (fun i => c i * W x i) := by
-    rw [← hiso (V c) (V (W x))]
-    rw [sumTo_eq_sum, sumTo_eq_sum]
+  have key : ∀ y : Nat → K, sumTo n (fun i => V c i * y i) = sumTo m (fun i => c i * W y i) := by
+    intro y
+    have e2 : sumTo n (fun i => V c i * y i) = sumTo n (fun i => V c i * V (W y) i) := by
+      rw [sumTo_eq_sum, sumTo_eq_sum]
+      exact Finset.sum_congr rfl fun i hi => by rw [hVW y i (Finset.mem_range.mp hi)]
+    rw [e2, ← hiso (V c) (V (W y)), sumTo_eq_sum, sumTo_eq_sum]
     exact Finset.sum_congr rfl fun i hi => by
-      rw [hWV c i (Finset.mem_range.mp hi), hWV (W x) i (Finset.mem_range.mp hi)]
+      rw [hWV c i (Finset.mem_range.mp hi), hWV (W y) i (Finset.mem_range.mp hi)]
   constructor
-  · rw [e1, hiso, sumTo_eq_sum, sumTo_eq_sum, Finset.mul_sum]
-    apply Finset.sum_congr rfl; intro i _
-    simp only [adjointScale, if_true]; field_simp
-  · rw [e2, e3, sumTo_eq_sum, sumTo_eq_sum, Finset.mul_sum]
-    apply Finset.sum_congr rfl; intro i _
-    simp only [adjointScale, Bool.false_eq_true, if_false]; ring
+  · rw [e1, hiso, sumTo_eq_sum, sumTo_eq_sum]
+    apply Finset.sum_congr rfl; intro i hi
+    have := hw i (Finset.mem_range.mp hi)
+    simp only [adjointForward]; field_simp
+  · have := key (fun i => w i * x i)
+    unfold adjointInverse
+    rw [← this, sumTo_eq_sum, sumTo_eq_sum]
+    apply Finset.sum_congr rfl; intro i _; ring
 
-/-- Non-vacuity: the coordinate swap on two samples is an isometry with itself as inverse. -/
-example (cv : ℚ) (hcv : cv ≠ 0) (x c : Nat → ℚ) :
+example (x c : Nat → ℚ) :
     sumTo 2 (fun i => x (1 - i) * c i)
-      = cv * sumTo 2 (fun i => x i * (adjointScale true cv * c (1 - i))) :=
-  (C18.wavelet_adjoint_scale 2 2 cv hcv (fun x i => x (1 - i)) (fun x i => x (1 - i))
+      = sumTo 2 (fun i => (if i = 0 then 3 else 1/2) *
+          (x i * adjointForward (fun i => if i = 0 then 3 else 1/2) (fun i => c (1 - i)) i)) :=
+  (C18.wavelet_adjoint_of_leaf_hyps 2 2 (fun i => if i = 0 then (3 : ℚ) else 1/2)
+    (by intro i _; split_ifs <;> norm_num)
+    (fun x i => x (1 - i)) (fun x i => x (1 - i))
     (by intro x x'; simp [sumTo]; ring)
     (by intro c i hi; have : 1 - (1 - i) = i := by omega
         simp [this])
     (by intro c i hi; have : 1 - (1 - i) = i := by omega
         simp [this]) x c).1
+
+/-- For the default space (all boundary fractions 1) the weights are the weighting constant
+at every index: the adjoint is the classical `(1/cell_volume)·W⁻¹`. -/
+theorem C18.inner_weight_uniform {K : Type} [Field K] (const : K) (shape idx : List Nat) :
+    innerWeight const (shape.map fun _ => ((1 : K), (1 : K))) shape idx = const := by
+  unfold innerWeight
+  apply foldl_weight_ones
+  intro t ht
+  have := (List.of_mem_zip ht).1
+  simp at this
+  exact this.2
 
 example : unravel (slicesFrom 0 ([[1, 2], [], [3]].map List.length)) (ravel [[1, 2], [], [3]])
     = [[1, 2], [], [3]] := C18.ravel_unravel_id _
